@@ -9,6 +9,12 @@ CHECKS = {
  'C05': dict(
    text='bounded, solver-decided: the parser and renderer are executed with every HashMap/HashSet iteration (and every tie of an unstable sort) forking over all orders; per path z3 shows the rendered text equal to the text of the canonical order, for all documents of the skeletons incl. names whose identifiers collide',
    design='§4 C05, §2.2', technique='symbolic execution with iteration order as a nondeterministic choice (all k! orders), 2-run product decided by z3; counterexamples confirmed by repeated native runs with fresh hash seeds'),
+ 'C06': dict(
+   text='bounded, solver-decided: into_struct followed by extend_struct on symbolic document sequences (K <= 3, 4 in one thorough family); per path z3 shows (a) the result equals the union oracle, (b) every step only grows the schema, (c) the schema equals that of every other supply order, of every single repetition and of every interleaving with an element-less document, (d) a reader error at any cut of the last document yields Err',
+   design='§4 C06', technique='symbolic execution of the real source over document sequences + z3 (oracle and 2-run products per path); native replay'),
+ 'C11': dict(
+   text='bounded, solver-decided at the reader-event interface: for every document of the skeletons with arbitrary incidental detail (element form, Text/CDATA, contents, attribute values, comments/PI/declaration/DOCTYPE at every slot) z3 shows the rendered text equal to that of the canonical representative of its structure class (all elements expanded, Text only, no noise), hence invariant under every listed rewrite; buffer capacities are inside quick_xml and only sampled natively',
+   design='§4 C11', technique='symbolic execution + 2-run product (arbitrary detail vs canonical representative), output equality decided by z3 per path'),
  'C15': dict(
    text='bounded, solver-decided by two engines that must agree: Kani/CBMC verifies the compiled merge_necessity::<u8> for every list shape (LA,LB) in the stated set with all items and tags symbolic (unwinding assertions on, so within a shape the result holds for all values); rsym/z3 decides the same four clauses on the source with symbolic names for all shapes up to 3x3 (4x4 thorough)',
    design='§4 C15, §2.1', engine='rsym+kani', technique='Kani (CBMC/cadical) bounded model checking of the compiled generic function per list shape, cross-checked by source-level symbolic execution with z3',
